@@ -492,6 +492,24 @@ def run(chk, F):
         "decides presence and dominance of run-time checks, handler coverage, ABI/table agreement and native "
         "signature agreement; that a check computes the right condition for every value and that the two back ends "
         "produce equal output are not decided",
-        "masm/arm64.rs (cfg(aarch64)) is not analysed on this host",
     ]
+    rule_r14(chk, F)
     from rules import a64; a64.run_c02(chk, F)  # noqa: E702  arm64 siblings (aarch64 fact set)
+
+
+def rule_r14(chk, F):
+    """C02.R14: pass-through wrappers of the baseline compiler's layers call their namesake (rules/forwarders.py);
+    the atomic ones are attributed to C09.R9."""
+    from rules import forwarders
+    r = chk.rule("C02.R14", "every pass-through wrapper in the baseline compiler (a method that hands its parameters "
+                            "unchanged to one method of a wrapped object) forwards to the wrapped object's method of "
+                            "its own name when there is one — both targets")
+    flt = lambda nm: not nm.endswith("_synchronized")                               # noqa: E731
+    n = 0
+    for cr in ("dora_cannon_compiler", "dora_compiler"):
+        n += forwarders.run(r, F.crate(cr), flt, "x64:")
+    try:
+        forwarders.run(r, F.a64().crate("dora_cannon_compiler"), flt, "arm64:")
+    except Exception as e:                                       # noqa: BLE001
+        r.observe("aarch64 facts unavailable: %s" % e)
+    r.floor("pass-through wrappers (x64 build)", n, 40)
